@@ -8,186 +8,330 @@
 (* the commands submitted and the lines the server has sent so far, the    *)
 (* connection state, the selected-mailbox summary, which commands are      *)
 (* complete with which status, and which data each of them was given.      *)
-(* Client actions: Submit(kind, arg).  Server actions (enabled only as RFC *)
-(* 9051 permits): untagged data, tagged completion of ANY pending command  *)
+(* Client actions: Submit(kind, arg), IdleDone.  Server actions (enabled   *)
+(* only as RFC 9051 permits): greeting (OK / PREAUTH), untagged data,      *)
+(* continuation request for IDLE, tagged completion of ANY pending command *)
 (* (out-of-order completion), BYE + close.  Pipelines are restricted to    *)
-(* the unambiguous ones of RFC 9051 section 5.5 (at most one pending       *)
-(* command per kind of untagged data; STATUS is discriminated by name).    *)
+(* the unambiguous ones of RFC 9051 section 5.5 (commands with the same    *)
+(* class of untagged data are answered in the order sent; STATUS, quota    *)
+(* and metadata data are discriminated by name, ESEARCH by tag).           *)
+(*                                                                         *)
+(* Kinds (the instance chooses a subset, so that several small instances   *)
+(* cover the whole command set):                                           *)
+(*   no data        NOOP LOGIN LOGOUT UNSELECT CLOSE UNAUTH CREATE         *)
+(*   SELECT         EXISTS FLAGS PERMANENTFLAGS UIDNEXT UIDVALIDITY LIST   *)
+(*   fetch class    FETCH (1:* or 1)  STORE  UIDFETCH (matched by UID)     *)
+(*   expunge class  EXPUNGE UIDEXPUNGE                                     *)
+(*   list class     LIST  LISTSTATUS (LIST ... RETURN (STATUS ...))        *)
+(*   one response   SEARCH SORT THREAD CAPABILITY ENABLE NAMESPACE         *)
+(*   by name/tag    STATUS ESEARCH GETQUOTA GETQUOTAROOT GETMETADATA       *)
+(*   response code  COPY (COPYUID) APPEND (APPENDUID) MOVE (untagged OK    *)
+(*                  [COPYUID], expunges are ordinary expunges)             *)
+(*   IDLE           continuation request, DONE, unilateral data meanwhile  *)
 (***************************************************************************)
 EXTENDS Naturals, Sequences, FiniteSets, TLC
 
 CONSTANTS MaxCmds,     \* commands submitted per behaviour
           MaxPending,  \* pipelined commands
           MaxNum,      \* largest message count
-          MaxItems     \* data responses per command
+          MaxItems,    \* data responses per command
+          Kinds,       \* kinds of command the client submits in this instance
+          Greetings    \* greetings the server may open with: subset of {"OK", "PREAUTH"}
 
 Mailboxes == {"A", "B"}
 FlagSets == {"f0", "f1"}          \* f0 = (\Seen), f1 = (\Seen \Deleted custom)  (concrete lists in the harness)
+CapSets == {"c0", "c1"}           \* capability lists (concrete lists in the harness)
+Prefixes == {"p0", "p1"}          \* namespace descriptions
 None == "none"
 
 \* ESEARCH: a UID SEARCH with RETURN options; its data response carries the tag of the command
 \* (RFC 4731 search correlator), so any number may be in flight and be answered in any order
-Kinds == {"NOOP", "LOGIN", "SELECT", "UNSELECT", "STATUS", "LIST", "SEARCH", "ESEARCH", "FETCH", "EXPUNGE", "LOGOUT"}
-HasArg(k) == k \in {"SELECT", "STATUS"}
+AllKinds == {"NOOP", "LOGIN", "SELECT", "UNSELECT", "STATUS", "LIST", "SEARCH", "ESEARCH", "FETCH", "EXPUNGE", "LOGOUT",
+             "CLOSE", "UNAUTH", "CREATE", "STORE", "UIDFETCH", "UIDEXPUNGE", "LISTSTATUS", "SORT", "THREAD",
+             "CAPABILITY", "ENABLE", "NAMESPACE", "GETQUOTA", "GETQUOTAROOT", "GETMETADATA", "COPY", "APPEND",
+             "MOVE", "IDLE"}
+ASSUME Kinds \subseteq AllKinds /\ Greetings \subseteq {"OK", "PREAUTH"} /\ Greetings # {}
 
-VARIABLES cstate,   \* "notauth" | "auth" | "selected" | "logout"
+ByName == {"STATUS", "GETQUOTA", "GETQUOTAROOT", "GETMETADATA"}
+ArgsOf(k) == CASE k \in ByName \cup {"SELECT"} -> Mailboxes
+               [] k = "FETCH" -> {"all", "one"}          \* FETCH 1:*  /  FETCH 1
+               [] OTHER -> {None}
+
+FetchClass == {"FETCH", "STORE", "UIDFETCH"}
+ExpungeClass == {"EXPUNGE", "UIDEXPUNGE"}
+ListClass == {"LIST", "LISTSTATUS"}
+\* classes of commands whose untagged data carries nothing that names the command: a server answers them in the
+\* order sent, the data belongs to the oldest one that can take it
+ClassOf(k) == CASE k \in FetchClass -> FetchClass [] k \in ExpungeClass -> ExpungeClass [] k \in ListClass -> ListClass
+                [] OTHER -> {k}
+Ordered == FetchClass \cup ExpungeClass \cup ListClass \cup {"SEARCH", "SORT", "THREAD", "CAPABILITY", "ENABLE", "NAMESPACE", "MOVE"}
+\* commands that change the connection state (or, IDLE, occupy the connection) are not pipelined
+Exclusive == {"SELECT", "LOGIN", "UNSELECT", "CLOSE", "UNAUTH", "LOGOUT", "IDLE"}
+
+VARIABLES greet,    \* the greeting this connection started with
+          cstate,   \* "notauth" | "auth" | "selected" | "logout"
           mbox,     \* [name, num, flags, perm]; name = None when nothing is selected
-          cmds,     \* Seq([kind, arg, st, acc]) all commands, index = id; st = "pending" | "OK" | "NO" | "BAD" | "ERR"
+          cmds,     \* Seq([kind, arg, st, ph, acc]) all commands, index = id; st = "pending" | "OK" | "NO" | "BAD" | "ERR"
           alive,    \* connection open
           comp,     \* ids completed by the LAST step
-          uni       \* unilateral data handed to the handler by the LAST step: Seq(<<type, n, flagset>>)
+          uni       \* unilateral data handed to the handler by the LAST step: Seq(<<type, n, x>>)
 
-vars == <<cstate, mbox, cmds, alive, comp, uni>>
+vars == <<greet, cstate, mbox, cmds, alive, comp, uni>>
 
 NoMbox == [name |-> None, num |-> 0, flags |-> None, perm |-> None]
-EmptyAcc == [num |-> 0, flags |-> None, perm |-> None, items |-> <<>>]
+\* what a command has been given so far.  num .. list: SELECT data; items: data responses in the order delivered;
+\* seqs / uids: messages a fetch-class command has been given; pendm: LISTSTATUS - the mailbox whose STATUS is awaited,
+\* GETQUOTAROOT - the quota root announced by QUOTAROOT
+EmptyAcc == [num |-> 0, flags |-> None, perm |-> None, uidnext |-> 0, uidval |-> 0, list |-> None,
+             items |-> <<>>, seqs |-> {}, uids |-> {}, pendm |-> None]
 
 Ids == 1..Len(cmds)
 PendingIds == {i \in Ids : cmds[i].st = "pending"}
 PendingOf(k) == {i \in PendingIds : cmds[i].kind = k}
+PendingIn(S) == {i \in PendingIds : cmds[i].kind \in S}
+Oldest(S) == CHOOSE i \in S : \A j \in S : i <= j
 \* the pending command a response of data kind k is routed to (the oldest one)
-Target(k) == CHOOSE i \in PendingOf(k) : \A j \in PendingOf(k) : i <= j
+Target(k) == Oldest(PendingOf(k))
 
 Init ==
-  /\ cstate = "notauth" /\ mbox = NoMbox /\ cmds = <<>> /\ alive = TRUE
+  /\ greet \in Greetings
+  /\ cstate = IF greet = "PREAUTH" THEN "auth" ELSE "notauth"
+  /\ mbox = NoMbox /\ cmds = <<>> /\ alive = TRUE
   /\ comp = {} /\ uni = <<>>
 
 Quiet == comp' = {} /\ uni' = <<>>
 
 \* ---------------------------------------------------------------- client
+\* an IDLE occupies the connection until DONE has been written
+Blocking(i) == \/ cmds[i].kind \in Exclusive \ {"IDLE"}
+               \/ cmds[i].kind = "IDLE" /\ cmds[i].ph # "stopping"
+
 \* RFC 9051 5.5: do not pipeline commands whose untagged data could be confused.
 Unambiguous(k, a) ==
-  /\ k \in {"SELECT", "LOGIN", "UNSELECT", "LOGOUT"} => PendingOf(k) = {}
-  \* two commands with the same kind of untagged data may be in flight only because the server answers
+  \* two commands with the same class of untagged data may be in flight only because the server answers
   \* them in the order sent (see Tagged): their data then belongs to the oldest one
-  /\ k \in {"FETCH", "SEARCH", "EXPUNGE", "LIST"} => Cardinality(PendingOf(k)) <= 1
-  /\ k = "STATUS" => \A i \in PendingOf("STATUS") : cmds[i].arg # a
+  /\ k \in Ordered => Cardinality(PendingIn(ClassOf(k))) <= 1
+  /\ k \in ByName => \A i \in PendingOf(k) : cmds[i].arg # a
   \* an untagged SEARCH response carries no correlator: this client hands it to the oldest pending search of
   \* either form, so the two forms are not mixed in one pipeline (treated as ambiguous, not as a defect)
   /\ k = "SEARCH" => PendingOf("ESEARCH") = {}
   /\ k = "ESEARCH" => PendingOf("SEARCH") = {}
+  \* STATUS data answers a STATUS command or belongs to a LIST ... RETURN (STATUS); QUOTA data answers GETQUOTA
+  \* or GETQUOTAROOT: not mixed either
+  /\ k = "STATUS" => PendingOf("LISTSTATUS") = {}
+  /\ k = "LISTSTATUS" => PendingOf("STATUS") = {}
+  /\ k = "GETQUOTA" => PendingOf("GETQUOTAROOT") = {}
+  /\ k = "GETQUOTAROOT" => PendingOf("GETQUOTA") = {}
   \* state-changing commands are not pipelined with commands that depend on the state
-  /\ k \in {"SELECT", "UNSELECT", "LOGOUT", "LOGIN"} => PendingIds = {}
-  /\ \A i \in PendingIds : cmds[i].kind \notin {"SELECT", "UNSELECT", "LOGOUT", "LOGIN"}
+  /\ k \in Exclusive => PendingIds = {}
+  /\ \A i \in PendingIds : ~Blocking(i)
 
 Submit(k, a) ==
   /\ alive /\ cstate # "logout"
   /\ Len(cmds) < MaxCmds /\ Cardinality(PendingIds) < MaxPending
-  /\ (HasArg(k) /\ a \in Mailboxes) \/ (~HasArg(k) /\ a = None)
+  /\ k \in Kinds /\ a \in ArgsOf(k)
   /\ Unambiguous(k, a)
-  /\ cmds' = Append(cmds, [kind |-> k, arg |-> a, st |-> "pending", acc |-> EmptyAcc])
-  /\ Quiet /\ UNCHANGED <<cstate, mbox, alive>>
+  /\ cmds' = Append(cmds, [kind |-> k, arg |-> a, st |-> "pending", ph |-> "", acc |-> EmptyAcc])
+  /\ Quiet /\ UNCHANGED <<greet, cstate, mbox, alive>>
+
+\* the caller ends an IDLE: DONE is written, the connection can be used again
+IdleDone(i) ==
+  /\ alive /\ i \in PendingOf("IDLE") /\ cmds[i].ph = "idling"
+  /\ cmds' = [cmds EXCEPT ![i].ph = "stopping"]
+  /\ Quiet /\ UNCHANGED <<greet, cstate, mbox, alive>>
 
 \* ---------------------------------------------------------------- server: untagged data
 SetAcc(i, acc) == cmds' = [cmds EXCEPT ![i].acc = acc]
 AddItem(i, it) == SetAcc(i, [cmds[i].acc EXCEPT !.items = Append(@, it)])
-RoomFor(i) == Len(cmds[i].acc.items) < MaxItems
+Held(i) == Len(cmds[i].acc.items) + (IF cmds[i].kind = "LISTSTATUS" /\ cmds[i].acc.pendm # None THEN 1 ELSE 0)
+RoomFor(i) == Held(i) < MaxItems
+NoItem(i) == cmds[i].acc.items = <<>>
 
 SelPending == PendingOf("SELECT") # {}
+SelAcc(f, v) == /\ SetAcc(Target("SELECT"), [cmds[Target("SELECT")].acc EXCEPT ![f] = v])
+                /\ mbox' = mbox /\ uni' = <<>>
 
 \* * n EXISTS
 Exists(n) ==
   /\ alive /\ n \in 0..MaxNum
   /\ IF SelPending
-     THEN /\ SetAcc(Target("SELECT"), [cmds[Target("SELECT")].acc EXCEPT !.num = n])
-          /\ mbox' = mbox /\ uni' = <<>>
+     THEN SelAcc("num", n)
      ELSE /\ cstate = "selected" /\ n >= mbox.num
           /\ mbox' = [mbox EXCEPT !.num = n] /\ uni' = <<<<"exists", n, None>>>>
           /\ cmds' = cmds
-  /\ comp' = {} /\ UNCHANGED <<cstate, alive>>
+  /\ comp' = {} /\ UNCHANGED <<greet, cstate, alive>>
 
 \* * FLAGS (...)
 Flags(f) ==
   /\ alive /\ f \in FlagSets
   /\ IF SelPending
-     THEN /\ SetAcc(Target("SELECT"), [cmds[Target("SELECT")].acc EXCEPT !.flags = f])
-          /\ mbox' = mbox /\ uni' = <<>>
+     THEN SelAcc("flags", f)
      ELSE /\ cstate = "selected"
           /\ mbox' = [mbox EXCEPT !.flags = f] /\ uni' = <<<<"flags", 0, f>>>>
           /\ cmds' = cmds
-  /\ comp' = {} /\ UNCHANGED <<cstate, alive>>
+  /\ comp' = {} /\ UNCHANGED <<greet, cstate, alive>>
 
 \* * OK [PERMANENTFLAGS (...)]
 PermFlags(f) ==
   /\ alive /\ f \in FlagSets
   /\ IF SelPending
-     THEN /\ SetAcc(Target("SELECT"), [cmds[Target("SELECT")].acc EXCEPT !.perm = f])
-          /\ mbox' = mbox /\ uni' = <<>>
+     THEN SelAcc("perm", f)
      ELSE /\ cstate = "selected"
           /\ mbox' = [mbox EXCEPT !.perm = f] /\ uni' = <<<<"permflags", 0, f>>>>
           /\ cmds' = cmds
-  /\ comp' = {} /\ UNCHANGED <<cstate, alive>>
+  /\ comp' = {} /\ UNCHANGED <<greet, cstate, alive>>
+
+\* * OK [UIDNEXT n] / * OK [UIDVALIDITY n] : part of the answer to SELECT
+UidNext(n) == alive /\ SelPending /\ n \in 1..MaxNum /\ SelAcc("uidnext", n) /\ comp' = {} /\ UNCHANGED <<greet, cstate, alive>>
+UidValidity(n) == alive /\ SelPending /\ n \in 1..MaxNum /\ SelAcc("uidval", n) /\ comp' = {} /\ UNCHANGED <<greet, cstate, alive>>
 
 \* * n EXPUNGE : the server only expunges existing messages of the selected mailbox
 Expunge(n) ==
   /\ alive /\ cstate = "selected" /\ ~SelPending /\ n \in 1..mbox.num
   /\ mbox' = [mbox EXCEPT !.num = @ - 1]
-  /\ IF PendingOf("EXPUNGE") # {}
-     THEN /\ RoomFor(Target("EXPUNGE")) /\ AddItem(Target("EXPUNGE"), <<"expunge", n, None>>) /\ uni' = <<>>
+  /\ IF PendingIn(ExpungeClass) # {}
+     THEN LET t == Oldest(PendingIn(ExpungeClass)) IN
+          /\ RoomFor(t) /\ AddItem(t, <<"expunge", n, None>>) /\ uni' = <<>>
      ELSE /\ cmds' = cmds /\ uni' = <<<<"expunge", n, None>>>>
-  /\ comp' = {} /\ UNCHANGED <<cstate, alive>>
+  /\ comp' = {} /\ UNCHANGED <<greet, cstate, alive>>
 
-\* * n FETCH (FLAGS (...))
-Fetch(n, f) ==
-  /\ alive /\ cstate = "selected" /\ ~SelPending /\ n \in 1..mbox.num /\ f \in FlagSets
-  \* a FETCH response for a message the pending command has already been given is a unilateral flag update
-  /\ IF PendingOf("FETCH") # {} /\ ~(\E x \in 1..Len(cmds[Target("FETCH")].acc.items) : cmds[Target("FETCH")].acc.items[x][2] = n)
-     THEN /\ RoomFor(Target("FETCH")) /\ AddItem(Target("FETCH"), <<"fetch", n, f>>) /\ uni' = <<>>
+\* Does the pending fetch-class command i take the FETCH response for message n carrying UID u (0: no UID item)?
+\* It asked for the message and has not been given it yet; a UID command recognises its messages by UID only.
+Wants(i, n, u) ==
+  LET c == cmds[i] IN
+  CASE c.kind = "UIDFETCH" -> u # 0 /\ u \notin c.acc.uids
+    [] c.kind = "FETCH" -> (c.arg = "one" => n = 1) /\ n \notin c.acc.seqs
+    [] c.kind = "STORE" -> n \notin c.acc.seqs
+    [] OTHER -> FALSE
+FetchTargets(n, u) == {i \in PendingIn(FetchClass) : Wants(i, n, u)}
+
+\* * n FETCH ([UID u] FLAGS (...))
+\* a FETCH response no pending command takes (not asked for, or already given) is a unilateral flag update
+Fetch(n, f, u) ==
+  /\ alive /\ cstate = "selected" /\ ~SelPending /\ n \in 1..mbox.num /\ f \in FlagSets /\ u \in 0..MaxNum
+  /\ IF FetchTargets(n, u) # {}
+     THEN LET t == Oldest(FetchTargets(n, u)) IN
+          /\ RoomFor(t)
+          /\ SetAcc(t, [cmds[t].acc EXCEPT !.items = Append(@, <<"fetch", n, f>>),
+                                           !.seqs = IF cmds[t].kind = "UIDFETCH" THEN @ ELSE @ \cup {n},
+                                           !.uids = IF cmds[t].kind = "UIDFETCH" THEN @ \cup {u} ELSE @])
+          /\ uni' = <<>>
      ELSE /\ cmds' = cmds /\ uni' = <<<<"fetch", n, f>>>>
-  /\ comp' = {} /\ UNCHANGED <<cstate, mbox, alive>>
+  /\ comp' = {} /\ UNCHANGED <<greet, cstate, mbox, alive>>
+
+\* * LIST () "/" m
+List(m) ==
+  /\ alive /\ m \in Mailboxes
+  /\ IF PendingIn(ListClass) # {}
+     THEN LET t == Oldest(PendingIn(ListClass)) IN
+          /\ RoomFor(t)
+          /\ IF cmds[t].kind = "LIST" THEN AddItem(t, <<"list", 0, m>>)
+             \* RETURN (STATUS): the mailbox is held back until its STATUS (or the next LIST) arrives
+             ELSE SetAcc(t, [cmds[t].acc EXCEPT !.pendm = m,
+                                                !.items = IF cmds[t].acc.pendm = None THEN @ ELSE Append(@, <<"list", 0, cmds[t].acc.pendm>>)])
+     \* RFC 9051 6.3.2: the LIST response for the mailbox being selected is part of the answer to SELECT
+     ELSE /\ SelPending /\ cmds[Target("SELECT")].arg = m /\ cmds[Target("SELECT")].acc.list = None
+          /\ SetAcc(Target("SELECT"), [cmds[Target("SELECT")].acc EXCEPT !.list = m])
+  /\ Quiet /\ UNCHANGED <<greet, cstate, mbox, alive>>
 
 \* * STATUS m (MESSAGES n)
 Status(m, n) ==
   /\ alive /\ n \in 0..MaxNum
-  /\ \E i \in PendingOf("STATUS") : cmds[i].arg = m /\ cmds[i].acc.items = <<>> /\ AddItem(i, <<"status", n, m>>)
-  /\ Quiet /\ UNCHANGED <<cstate, mbox, alive>>
+  /\ \/ \E i \in PendingOf("STATUS") : cmds[i].arg = m /\ NoItem(i) /\ AddItem(i, <<"status", n, m>>)
+     \/ /\ {i \in PendingOf("LISTSTATUS") : cmds[i].acc.pendm = m} # {}
+        /\ LET t == Oldest({i \in PendingOf("LISTSTATUS") : cmds[i].acc.pendm = m}) IN
+           SetAcc(t, [cmds[t].acc EXCEPT !.pendm = None, !.items = Append(@, <<"liststatus", n, m>>)])
+  /\ Quiet /\ UNCHANGED <<greet, cstate, mbox, alive>>
 
-\* * LIST () "/" m
-List(m) ==
-  /\ alive /\ PendingOf("LIST") # {} /\ m \in Mailboxes
-  /\ RoomFor(Target("LIST")) /\ AddItem(Target("LIST"), <<"list", 0, m>>)
-  /\ Quiet /\ UNCHANGED <<cstate, mbox, alive>>
-
-\* * SEARCH n
-Search(n) ==
-  /\ alive /\ PendingOf("SEARCH") # {} /\ n \in 1..MaxNum
-  /\ cmds[Target("SEARCH")].acc.items = <<>> /\ AddItem(Target("SEARCH"), <<"search", n, None>>)
-  /\ Quiet /\ UNCHANGED <<cstate, mbox, alive>>
+\* one-response data for the oldest pending command of its kind
+Single(k, it) == /\ alive /\ PendingOf(k) # {} /\ NoItem(Target(k)) /\ AddItem(Target(k), it)
+                 /\ Quiet /\ UNCHANGED <<greet, cstate, mbox, alive>>
+Search(n) == n \in 1..MaxNum /\ Single("SEARCH", <<"search", n, None>>)          \* * SEARCH n
+Sort(n) == n \in 1..MaxNum /\ Single("SORT", <<"sort", n, None>>)                \* * SORT n
+Thread(n) == n \in 1..MaxNum /\ Single("THREAD", <<"thread", n, None>>)          \* * THREAD (n)
+Caps(c) == c \in CapSets /\ Single("CAPABILITY", <<"caps", 0, c>>)               \* * CAPABILITY ...
+Enabled == Single("ENABLE", <<"enabled", 0, None>>)                              \* * ENABLED UTF8=ACCEPT
+Namespace(p) == p \in Prefixes /\ Single("NAMESPACE", <<"ns", 0, p>>)            \* * NAMESPACE ((prefix delim)) NIL NIL
+MoveUid(n) == n \in 1..MaxNum /\ Single("MOVE", <<"copyuid", n, None>>)          \* * OK [COPYUID n 1:2 5:6]
 
 \* * ESEARCH (TAG "<tag of i>") UID COUNT n : routed by the correlator, not by position
 Esearch(i, n) ==
   /\ alive /\ i \in PendingOf("ESEARCH") /\ n \in 1..MaxNum
-  /\ cmds[i].acc.items = <<>> /\ AddItem(i, <<"esearch", n, None>>)
-  /\ Quiet /\ UNCHANGED <<cstate, mbox, alive>>
+  /\ NoItem(i) /\ AddItem(i, <<"esearch", n, None>>)
+  /\ Quiet /\ UNCHANGED <<greet, cstate, mbox, alive>>
+
+\* * QUOTAROOT m r : the roots of the mailbox a GETQUOTAROOT asked about
+QuotaRoot(m, r) ==
+  /\ alive /\ r \in Mailboxes
+  /\ \E i \in PendingOf("GETQUOTAROOT") : cmds[i].arg = m /\ cmds[i].acc.pendm = None
+                                          /\ SetAcc(i, [cmds[i].acc EXCEPT !.pendm = r])
+  /\ Quiet /\ UNCHANGED <<greet, cstate, mbox, alive>>
+
+\* * QUOTA r (STORAGE n 100) : answers the GETQUOTA for root r, or the GETQUOTAROOT whose mailbox has root r
+Quota(r, n) ==
+  /\ alive /\ n \in 0..MaxNum
+  /\ \/ \E i \in PendingOf("GETQUOTA") : cmds[i].arg = r /\ NoItem(i) /\ AddItem(i, <<"quota", n, r>>)
+     \/ /\ {i \in PendingOf("GETQUOTAROOT") : cmds[i].acc.pendm = r} # {}
+        /\ LET t == Oldest({i \in PendingOf("GETQUOTAROOT") : cmds[i].acc.pendm = r}) IN
+           NoItem(t) /\ AddItem(t, <<"quota", n, r>>)
+  /\ Quiet /\ UNCHANGED <<greet, cstate, mbox, alive>>
+
+\* * METADATA m (/private/comment "v<n>") : entry values answer the GETMETADATA for m
+Metadata(m, n) ==
+  /\ alive /\ n \in 1..MaxNum
+  /\ \E i \in PendingOf("GETMETADATA") : cmds[i].arg = m /\ NoItem(i) /\ AddItem(i, <<"meta", n, m>>)
+  /\ Quiet /\ UNCHANGED <<greet, cstate, mbox, alive>>
+
+\* * METADATA m /private/comment : an entry list (no values) announces a change, whoever is pending
+MetaChanged(m) ==
+  /\ alive /\ cstate \in {"auth", "selected"} /\ m \in Mailboxes
+  /\ uni' = <<<<"meta", 0, m>>>> /\ comp' = {}
+  /\ UNCHANGED <<greet, cstate, mbox, cmds, alive>>
 
 \* * OK [CLOSED] : the previous mailbox is closed while a SELECT is in progress
 Closed ==
   /\ alive /\ cstate = "selected" /\ SelPending
   /\ cstate' = "auth" /\ mbox' = NoMbox
-  /\ Quiet /\ UNCHANGED <<cmds, alive>>
+  /\ Quiet /\ UNCHANGED <<greet, cmds, alive>>
 
-\* ---------------------------------------------------------------- server: tagged completion
+\* ---------------------------------------------------------------- server: continuation, tagged completion
 \* May a conformant server answer OK to command i now?
 OkAllowed(i) ==
   LET k == cmds[i].kind IN
-  CASE k \in {"NOOP", "LOGOUT"} -> TRUE
+  CASE k \in {"NOOP", "LOGOUT", "CAPABILITY"} -> TRUE
     [] k = "LOGIN" -> cstate = "notauth"
-    [] k \in {"SELECT", "STATUS", "LIST"} -> cstate \in {"auth", "selected"}
+    [] k \in {"SELECT", "STATUS", "LIST", "LISTSTATUS", "CREATE", "UNAUTH", "ENABLE", "NAMESPACE", "GETQUOTA",
+              "GETQUOTAROOT", "GETMETADATA", "APPEND", "IDLE"} -> cstate \in {"auth", "selected"}
     [] OTHER -> cstate = "selected"
 
-Complete(i, st) ==
-  /\ cmds' = [cmds EXCEPT ![i].st = st]
-  /\ comp' = {i} /\ uni' = <<>>
+\* + idling : the server accepts the IDLE
+Cont(i) ==
+  /\ alive /\ i \in PendingOf("IDLE") /\ cmds[i].ph = "" /\ OkAllowed(i)
+  /\ cmds' = [cmds EXCEPT ![i].ph = "idling"]
+  /\ Quiet /\ UNCHANGED <<greet, cstate, mbox, alive>>
 
-Tagged(i, st) ==
+\* what a command holds back is handed over when it completes, however it completes
+Flushed(c) == IF c.kind = "LISTSTATUS" /\ c.acc.pendm # None
+              THEN [c EXCEPT !.acc.items = Append(@, <<"list", 0, c.acc.pendm>>), !.acc.pendm = None]
+              ELSE c
+
+\* code: the tagged OK carries the response code with the command's result (COPYUID n 1:2 5:6 / APPENDUID n 3)
+Tagged(i, st, code) ==
   /\ alive /\ i \in PendingIds /\ st \in {"OK", "NO", "BAD"}
   /\ st = "OK" => OkAllowed(i)
-  \* commands with the same kind of untagged data are completed in the order they were sent
-  /\ cmds[i].kind \in {"FETCH", "SEARCH", "EXPUNGE", "LIST"} => \A j \in PendingOf(cmds[i].kind) : i <= j
+  /\ code \in 0..MaxNum /\ (code # 0 => st = "OK" /\ cmds[i].kind \in {"COPY", "APPEND"})
+  \* commands with the same class of untagged data are completed in the order they were sent
+  /\ cmds[i].kind \in Ordered => \A j \in PendingIn(ClassOf(cmds[i].kind)) : i <= j
+  \* IDLE: refused instead of the continuation request, or completed after DONE
+  /\ cmds[i].kind = "IDLE" => IF st = "OK" THEN cmds[i].ph = "stopping" ELSE cmds[i].ph = ""
   \* BAD means the command was not understood: whether a selected mailbox survives a BAD SELECT is not
   \* settled by the RFC, and a conformant server has no reason to answer BAD to a well-formed SELECT
   /\ ~(st = "BAD" /\ cmds[i].kind = "SELECT" /\ cstate = "selected")
-  /\ Complete(i, st)
+  /\ LET c == Flushed(cmds[i])
+         d == IF code = 0 THEN c
+              ELSE [c EXCEPT !.acc.items = Append(@, <<IF c.kind = "COPY" THEN "copyuid" ELSE "appenduid", code, None>>)]
+     IN cmds' = [cmds EXCEPT ![i] = [d EXCEPT !.st = st]]
+  /\ comp' = {i} /\ uni' = <<>>
   /\ LET k == cmds[i].kind IN
      CASE k = "LOGIN" /\ st = "OK" -> cstate' = "auth" /\ mbox' = mbox
        [] k = "SELECT" /\ st = "OK" ->
@@ -198,28 +342,34 @@ Tagged(i, st) ==
        [] k = "SELECT" /\ st # "OK" ->
             /\ cstate' = IF cstate = "selected" THEN "auth" ELSE cstate
             /\ mbox' = NoMbox
-       [] k = "UNSELECT" /\ st = "OK" -> cstate' = "auth" /\ mbox' = NoMbox
+       [] k \in {"UNSELECT", "CLOSE"} /\ st = "OK" -> cstate' = "auth" /\ mbox' = NoMbox
+       [] k = "UNAUTH" /\ st = "OK" -> cstate' = "notauth" /\ mbox' = NoMbox
        [] k = "LOGOUT" /\ st = "OK" -> cstate' = "logout" /\ mbox' = NoMbox
        [] OTHER -> cstate' = cstate /\ mbox' = mbox
-  /\ alive' = alive
+  /\ UNCHANGED <<greet, alive>>
 
 \* The server says BYE and closes (or the connection is lost): every pending command fails.
 Bye ==
   /\ alive
   /\ alive' = FALSE /\ cstate' = "logout" /\ mbox' = NoMbox
-  /\ cmds' = [i \in Ids |-> IF cmds[i].st = "pending" THEN [cmds[i] EXCEPT !.st = "ERR"] ELSE cmds[i]]
-  /\ comp' = PendingIds /\ uni' = <<>>
+  /\ cmds' = [i \in Ids |-> IF cmds[i].st = "pending" THEN [Flushed(cmds[i]) EXCEPT !.st = "ERR"] ELSE cmds[i]]
+  /\ comp' = PendingIds /\ uni' = <<>> /\ greet' = greet
 
 Next ==
-  \/ \E k \in Kinds, a \in Mailboxes \cup {None} : Submit(k, a)
-  \/ \E n \in 0..MaxNum : Exists(n) \/ Expunge(n) \/ Search(n)
+  \/ \E k \in Kinds : \E a \in ArgsOf(k) : Submit(k, a)
+  \/ \E i \in 1..MaxCmds : IdleDone(i) \/ Cont(i)
+  \/ \E n \in 0..MaxNum : Exists(n) \/ Expunge(n) \/ Search(n) \/ Sort(n) \/ Thread(n) \/ MoveUid(n)
+                          \/ UidNext(n) \/ UidValidity(n)
   \/ \E f \in FlagSets : Flags(f) \/ PermFlags(f)
-  \/ \E n \in 1..MaxNum, f \in FlagSets : Fetch(n, f)
-  \/ \E m \in Mailboxes, n \in 0..MaxNum : Status(m, n)
-  \/ \E m \in Mailboxes : List(m)
+  \/ \E n \in 1..MaxNum, f \in FlagSets, u \in 0..MaxNum : Fetch(n, f, u)
+  \/ \E m \in Mailboxes, n \in 0..MaxNum : Status(m, n) \/ Quota(m, n) \/ Metadata(m, n)
+  \/ \E m \in Mailboxes : List(m) \/ MetaChanged(m) \/ \E r \in Mailboxes : QuotaRoot(m, r)
+  \/ \E c \in CapSets : Caps(c)
+  \/ \E p \in Prefixes : Namespace(p)
+  \/ Enabled
   \/ \E i \in 1..MaxCmds, n \in 1..MaxNum : Esearch(i, n)
   \/ Closed
-  \/ \E i \in 1..MaxCmds, st \in {"OK", "NO", "BAD"} : Tagged(i, st)
+  \/ \E i \in 1..MaxCmds, st \in {"OK", "NO", "BAD"}, code \in 0..MaxNum : Tagged(i, st, code)
   \/ Bye
 
 Spec == Init /\ [][Next]_vars
@@ -229,6 +379,7 @@ TypeOK ==
   /\ cstate \in {"notauth", "auth", "selected", "logout"}
   /\ (mbox.name # None) <=> (cstate = "selected")
   /\ comp \subseteq Ids
+  /\ \A i \in Ids : cmds[i].kind \in Kinds /\ cmds[i].arg \in ArgsOf(cmds[i].kind)
 
 \* each command completes at most once and never changes its status afterwards
 ExactlyOnce ==
@@ -240,27 +391,36 @@ Isolation ==
         /\ cstate' = cstate /\ mbox' = mbox /\ alive' = alive
         /\ \A j \in Ids : j # i => cmds'[j] = cmds[j]]_vars
 
-\* data is only ever added to a pending command of the right kind
+\* data is only ever added to a pending command of the right kind (and, where data is named, the right name)
+KindsTaking(t) ==
+  CASE t = "expunge" -> ExpungeClass [] t = "fetch" -> FetchClass
+    [] t = "status" -> {"STATUS"} [] t = "list" -> ListClass [] t = "liststatus" -> {"LISTSTATUS"}
+    [] t = "search" -> {"SEARCH"} [] t = "esearch" -> {"ESEARCH"} [] t = "sort" -> {"SORT"} [] t = "thread" -> {"THREAD"}
+    [] t = "caps" -> {"CAPABILITY"} [] t = "enabled" -> {"ENABLE"} [] t = "ns" -> {"NAMESPACE"}
+    [] t = "quota" -> {"GETQUOTA", "GETQUOTAROOT"} [] t = "meta" -> {"GETMETADATA"}
+    [] t = "copyuid" -> {"COPY", "MOVE"} [] t = "appenduid" -> {"APPEND"}
+    [] OTHER -> {}
 DataToRightCommand ==
   [][\A i \in Ids : cmds'[i].acc # cmds[i].acc =>
         /\ cmds[i].st = "pending"
         /\ \A x \in 1..Len(cmds'[i].acc.items) :
-             LET t == cmds'[i].acc.items[x][1] IN
-               \/ (t = "expunge" /\ cmds[i].kind = "EXPUNGE")
-               \/ (t = "fetch" /\ cmds[i].kind = "FETCH")
-               \/ (t = "status" /\ cmds[i].kind = "STATUS" /\ cmds'[i].acc.items[x][3] = cmds[i].arg)
-               \/ (t = "list" /\ cmds[i].kind = "LIST")
-               \/ (t = "search" /\ cmds[i].kind = "SEARCH")
-               \/ (t = "esearch" /\ cmds[i].kind = "ESEARCH")]_vars
+             LET it == cmds'[i].acc.items[x] IN
+               /\ cmds[i].kind \in KindsTaking(it[1])
+               /\ (it[1] \in {"status", "meta"} \/ (it[1] = "quota" /\ cmds[i].kind = "GETQUOTA")) => it[3] = cmds[i].arg
+               /\ (it[1] = "fetch" /\ cmds[i].kind = "FETCH" /\ cmds[i].arg = "one") => it[2] = 1]_vars
 
 StateDiagram ==
   [][cstate' # cstate => <<cstate, cstate'>> \in
        {<<"notauth", "auth">>, <<"auth", "selected">>, <<"selected", "auth">>,
+        <<"auth", "notauth">>, <<"selected", "notauth">>,
         <<"notauth", "logout">>, <<"auth", "logout">>, <<"selected", "logout">>}]_vars
+
+\* while an IDLE is running (continuation received, DONE not yet written) nothing else is in flight
+IdleAlone == \A i \in PendingOf("IDLE") : cmds[i].ph # "stopping" => PendingIds = {i}
 
 Bounded == Len(cmds) <= MaxCmds
 
 \* View for the quick model check: completed commands are history (their number is kept); the
 \* action properties are still evaluated on every generated transition.
-McView == <<cstate, mbox, alive, Len(cmds), {<<cmds[i].kind, cmds[i].arg, cmds[i].acc>> : i \in PendingIds}>>
+McView == <<greet, cstate, mbox, alive, Len(cmds), {<<cmds[i].kind, cmds[i].arg, cmds[i].ph, cmds[i].acc>> : i \in PendingIds}>>
 =============================================================================
